@@ -1,7 +1,7 @@
 """C09 - shared-memory store (see contracts/c08_shm.py for the proved obligations, checks/shm_bounded.py for the stand-in)."""
 from checks import common
 
-PROVED_TARGETS = ['cascade.shm.dataset:Dataset.is_pageoutable', 'cascade.shm.dataset:Manager.get', 'cascade.shm.dataset:Manager.close_callback', 'cascade.shm.dataset:Manager.purge', 'cascade.shm.dataset:Manager.page_out.<locals>.callback', 'cascade.shm.disk:Disk._page_out', 'cascade.shm.disk:Disk._page_in']
+PROVED_TARGETS = ['cascade.shm.dataset:Dataset.is_pageoutable', 'cascade.shm.dataset:Manager.get', 'cascade.shm.dataset:Manager.close_callback', 'cascade.shm.dataset:Manager.purge', 'cascade.shm.dataset:Manager.page_out.<locals>.callback', 'cascade.shm.disk:Disk._page_out', 'cascade.shm.disk:Disk._page_in', 'cascade.shm.algorithms:lottery']
 
 
 def run(tier, seed):
